@@ -466,6 +466,18 @@ CLAIMED["C06"]["text"] += (" Round 7: ALAC reads ACROSS packet boundaries (lean/
 CLAIMED["C01"]["text"] += (" Round 7: ALAC wrapper o codec in the model (lean/SfProps/C01AlacFile.lean): alac_file_roundtrip -- for every list of write calls, the data region and packet table alac_close leaves, read by any sequence of read calls, deliver the frames written, "
                             "for every codec core satisfying CodecOk (decode o encode = id per packet, 1..2^20 bytes); the real core satisfies it by alac_lossless_exact up to the packet-size bound, which stays a hypothesis (alac_core_file_roundtrip).")
 
+# ---- round 7 (worker ieeefix): the portable IEEE writers encode exponent field 0 (appended, the texts above are unchanged) ----
+CLAIMED["C20"]["text"] += (" Round 7: the portable WRITERS are repaired (signbit, exponent field 0 encoded: KF-C01-ieee-tiny / KF-C18-PEAK-SUBNORMAL fixed) and proved at FULL strength: ieee_write_finite_f32 / _f64 -- "
+                            "float32_*_write / double64_*_write produce the native bit string for EVERY finite value (normal, subnormal, +0, -0), write_read_finite_*, replace_write_finite_* / replace_read_finite_* / replace_buffer_roundtrip; "
+                            "the early-return rule is kept as ...TinyOld (ieee_write_tiny_old_rule, ieee_write_finite_tiny_old_rule_fails: 2^-127 and -0.0). Every kernel / API / AIFF-PEAK stream carries exponent-field-0 patterns heavily "
+                            "(vlib/ieee.py tiny_patterns: every single-bit mantissa, all-ones prefixes, the neighbours of FLT_MIN / DBL_MIN, seeded mantissas, both signs).")
+CLAIMED["C01"]["text"] += (" Round 7: C01 through the portable IEEE path (SFC_TEST_IEEE_FLOAT_REPLACE) holds for EVERY finite value incl. subnormals and -0.0 (replace_roundtrip, no excluded class; "
+                            "replace_roundtrip_old_rule_fails / _partial keep the rule before the repair); the campaign no longer waives anything and writes exponent field 0 heavily.")
+CLAIMED["C18"]["text"] += (" Round 7: the PEAK value field is exact below FLT_MIN too (Sf.PeakExact, SfProps/C18Exact.lean: peak_field_exact, peak_field_bytes, peak_chunk_roundtrip_exact -- the chunk re-opens as the binary32 of the "
+                            "maximum for every finite value; peak_field_old_rule / peak_field_old_rule_fails keep Sf.wrF32; chunk_agrees_old_rule: without a subnormal maximum the two chunks are the same bytes). 24 jobs with subnormal "
+                            "maxima (all six containers, both encodings, doubles between two subnormal floats, FLT_MIN as boundary) run on every seed; nothing below FLT_MIN is waived any more.")
+
+
 def main():
     checks = []
     for p in PROPS:
